@@ -230,7 +230,8 @@ Proof.
   destruct (idx >? 0) eqn:E1.
   - destruct (len pre + (idx - 1) <? 0) eqn:E0; [lia|].
     replace (len pre + idx - 1) with (len pre + (idx - 1)) by lia.
-    destruct (len pre + (idx - 1) >=? top r) eqn:E2; [reflexivity|].
+    destruct (len pre + (idx - 1) >=? top r) eqn:E2.
+    { destruct (len pre + (idx - 1) >? top r) eqn:E2'; [lia|]. reflexivity. }
     destruct (len pre + (idx - 1) <=? len pre) eqn:E3; [|reflexivity].
     assert (idx = 1) by lia. subst idx. replace (len pre + (1 - 1)) with (len pre) by lia. reflexivity.
   - destruct (idx =? 0) eqn:E2.
@@ -256,18 +257,38 @@ Proof.
 Qed.
 
 Lemma apiInsert_ok r pre l lim v idx :
-  Rr r (pre ++ l) lim -> insPos (len l) idx <= len l + 1 -> len pre + len l + 1 <= lim ->
+  Rr r (pre ++ l) lim -> RegistryIndex < idx ->
+  len pre + Z.max (len l + 1) (insPos (len l) idx) <= lim ->
   exists r', apiInsert r (len pre) v idx = AOk r' /\ Rr r' (pre ++ L_insert l v idx) lim.
 Proof.
-  intros HR Hd Hn. pose proof (len_nonneg pre). pose proof (len_nonneg l).
-  rewrite (apiInsert_as_Insert r pre l lim v idx HR Hd).
+  intros HR Hidx Hn. pose proof (len_nonneg pre). pose proof (len_nonneg l).
   assert (Hp : 1 <= insPos (len l) idx).
   { unfold insPos, validIdx. destruct (idx >? 0) eqn:E; [lia|].
     destruct ((1 <=? absIndex (len l) idx) && (absIndex (len l) idx <=? len l)) eqn:E2; lia. }
-  destruct (Insert_ok r (pre ++ l) lim v (len pre + (insPos (len l) idx - 1)) HR) as (r' & Hs & HR');
-    rewrite ?len_app; try lia.
-  rewrite Hs. exists r'. split; [reflexivity|].
-  rewrite insertL_pre in HR' by lia. exact HR'.
+  unfold L_insert. destruct (insPos (len l) idx >? len l + 1) eqn:Ea.
+  - (* beyond top+1: the gap is filled with LNil, then the value is stored *)
+    assert (Hpos : idx >? 0 = true).
+    { unfold insPos, validIdx in Ea. destruct (idx >? 0) eqn:E; [reflexivity|].
+      destruct ((1 <=? absIndex (len l) idx) && (absIndex (len l) idx <=? len l)) eqn:E2; lia. }
+    assert (Ha : insPos (len l) idx = idx) by (unfold insPos; now rewrite Hpos).
+    rewrite Ha in *. pose proof (top_pre _ _ _ _ HR) as Ht.
+    unfold apiInsert, indexToReg. rewrite Hpos.
+    destruct (len pre + idx - 1 >=? top r) eqn:E1; [|lia].
+    destruct (len pre + idx - 1 >? top r) eqn:E2; [|lia].
+    destruct (SetTop_ok r (pre ++ l) lim (len pre + idx - 1) HR) as (r1 & Hs & HR1); [lia|].
+    rewrite Hs. cbn [bind].
+    replace (len pre + idx - 1) with (len pre + (idx - 1)) in HR1 by lia. rewrite resizeN_pre in HR1 by lia.
+    assert (Hlen : len (pre ++ resizeL l (idx - 1)) = len pre + (idx - 1)) by (unfold resizeL; rd_norm; lia).
+    destruct (Set_ok r1 _ lim (len pre + idx - 1) v HR1) as (r2 & Hs2 & HR2); try lia.
+    rewrite Hs2. exists r2. split; [reflexivity|].
+    unfold setL in HR2. destruct (len pre + idx - 1 <? len (pre ++ resizeL l (idx - 1))) eqn:E3; [lia|].
+    rewrite <- app_assoc in HR2. exact HR2.
+  - assert (Hd : insPos (len l) idx <= len l + 1) by lia.
+    rewrite (apiInsert_as_Insert r pre l lim v idx HR Hd).
+    destruct (Insert_ok r (pre ++ l) lim v (len pre + (insPos (len l) idx - 1)) HR) as (r' & Hs & HR');
+      rewrite ?len_app; try lia.
+    rewrite Hs. exists r'. split; [reflexivity|].
+    rewrite insertL_pre in HR' by lia. exact HR'.
 Qed.
 
 (* ---------- Remove ---------- *)
